@@ -1,4 +1,341 @@
+// Projection of the crate's AST into the abstract CddlAst encoding of the specification
+// (the same JSON the generators produce and spec/CddlSem.tla, spec/AstTree.tla read), and a
+// span tree.  Pure projection: no normalisation beyond what is stated inline.
+use cddl::ast::*;
+use cddl::token::{ByteValue, Value as TV};
 use serde_json::{json, Value as J};
-pub fn proj_cddl(_c: &cddl::ast::CDDL) -> J { json!({}) }
-pub fn span_tree(_c: &cddl::ast::CDDL, _t: &str) -> J { json!({}) }
-pub fn comments(_c: &cddl::ast::CDDL) -> J { json!([]) }
+
+fn mag(mut m: u128) -> J {
+  let mut v = vec![];
+  if m == 0 {
+    v.push(0u8);
+  }
+  while m > 0 {
+    v.push((m & 0xff) as u8);
+    m >>= 8;
+  }
+  v.reverse();
+  json!(v)
+}
+
+fn int_j(i: i128) -> J {
+  if i >= 0 {
+    json!({"k":"int","neg":false,"mag":mag(i as u128)})
+  } else {
+    json!({"k":"int","neg":true,"mag":mag((-1 - i) as u128)})
+  }
+}
+
+fn float_j(f: f64) -> J {
+  if f.is_nan() {
+    json!({"k":"float","bits":[127,248,0,0,0,0,0,0],"nan":true})
+  } else {
+    json!({"k":"float","bits":f.to_bits().to_be_bytes().to_vec(),"nan":false})
+  }
+}
+
+fn text_j(s: &str) -> J {
+  json!({"k":"text","cp": s.chars().map(|c| c as u32).collect::<Vec<_>>()})
+}
+
+pub fn ident_name(i: &Identifier) -> String {
+  i.to_string()
+}
+
+fn args_j(ga: &Option<GenericArgs>) -> J {
+  match ga {
+    None => json!([]),
+    Some(g) => J::Array(g.args.iter().map(|a| type1_j(&a.arg)).collect()),
+  }
+}
+
+fn token_value_j(v: &TV) -> J {
+  match v {
+    TV::INT(i) => int_j(*i as i128),
+    TV::UINT(u) => int_j(*u as i128),
+    TV::FLOAT(f) => float_j(*f),
+    TV::TEXT(t) => text_j(t),
+    TV::BYTE(ByteValue::UTF8(b)) => json!({"k":"bytes","enc":"utf8","raw": b.to_vec()}),
+    TV::BYTE(ByteValue::B16(b)) => json!({"k":"bytes","enc":"b16","raw": b.to_vec()}),
+    TV::BYTE(ByteValue::B64(b)) => json!({"k":"bytes","enc":"b64","raw": b.to_vec()}),
+  }
+}
+
+fn tagc_j(t: &Option<cddl::token::TagConstraint>) -> J {
+  match t {
+    None => json!({"tk":"none"}),
+    Some(cddl::token::TagConstraint::Literal(n)) => json!({"tk":"lit","n":mag(*n as u128)}),
+    Some(cddl::token::TagConstraint::Type(s)) => json!({"tk":"type","name":s}),
+  }
+}
+
+fn type2_j(t: &Type2) -> J {
+  match t {
+    Type2::IntValue { value, .. } => json!({"k":"lit","v":int_j(*value as i128)}),
+    Type2::UintValue { value, .. } => json!({"k":"lit","v":int_j(*value as i128)}),
+    Type2::FloatValue { value, .. } => json!({"k":"lit","v":float_j(*value)}),
+    Type2::TextValue { value, .. } => json!({"k":"lit","v":text_j(value)}),
+    Type2::UTF8ByteString { value, .. } => json!({"k":"lit","v":{"k":"bytes","enc":"utf8","raw":value.to_vec()}}),
+    Type2::B16ByteString { value, .. } => json!({"k":"lit","v":{"k":"bytes","enc":"b16","raw":value.to_vec()}}),
+    Type2::B64ByteString { value, .. } => json!({"k":"lit","v":{"k":"bytes","enc":"b64","raw":value.to_vec()}}),
+    Type2::Typename { ident, generic_args, .. } => json!({"k":"ref","n":ident_name(ident),"args":args_j(generic_args)}),
+    Type2::ParenthesizedType { pt, .. } => json!({"k":"paren","t":type_j(pt)}),
+    Type2::Map { group, .. } => json!({"k":"map","g":group_j(group)}),
+    Type2::Array { group, .. } => json!({"k":"arr","g":group_j(group)}),
+    Type2::Unwrap { ident, generic_args, .. } => json!({"k":"unwrap","n":ident_name(ident),"args":args_j(generic_args)}),
+    Type2::ChoiceFromInlineGroup { group, .. } => json!({"k":"enumg","g":group_j(group)}),
+    Type2::ChoiceFromGroup { ident, generic_args, .. } => json!({"k":"enumr","n":ident_name(ident),"args":args_j(generic_args)}),
+    Type2::TaggedData { tag, t, .. } => json!({"k":"tag","tag":tagc_j(tag),"t":type_j(t)}),
+    Type2::DataMajorType { mt, constraint, .. } => json!({"k":"major","mt":mt,"c":tagc_j(constraint)}),
+    Type2::Any { .. } => json!({"k":"any"}),
+  }
+}
+
+fn ctl_name(c: &cddl::token::ControlOperator) -> String {
+  c.to_string().trim_start_matches('.').to_string()
+}
+
+pub fn type1_j(t: &Type1) -> J {
+  let base = type2_j(&t.type2);
+  match &t.operator {
+    None => base,
+    Some(op) => match &op.operator {
+      RangeCtlOp::RangeOp { is_inclusive, .. } => json!({"k":"range","lo":base,"hi":type2_j(&op.type2),"incl":is_inclusive}),
+      RangeCtlOp::CtlOp { ctrl, .. } => json!({"k":"ctl","op":ctl_name(ctrl),"t":base,"arg":type2_j(&op.type2)}),
+    },
+  }
+}
+
+pub fn type_j(t: &Type) -> J {
+  json!({"alts": t.type_choices.iter().map(|tc| type1_j(&tc.type1)).collect::<Vec<_>>()})
+}
+
+fn occ_bounds(o: &Option<Occurrence>) -> (i64, i64, &'static str) {
+  match o {
+    None => (1, 1, ""),
+    Some(o) => match o.occur {
+      Occur::Optional { .. } => (0, 1, "?"),
+      Occur::ZeroOrMore { .. } => (0, -1, "*"),
+      Occur::OneOrMore { .. } => (1, -1, "+"),
+      Occur::Exact { lower, upper, .. } => (
+        lower.map(|x| x as i64).unwrap_or(0),
+        upper.map(|x| x as i64).unwrap_or(-1),
+        "n*m",
+      ),
+    },
+  }
+}
+
+fn key_j(k: &Option<MemberKey>) -> J {
+  match k {
+    None => json!({"kk":"none"}),
+    Some(MemberKey::Bareword { ident, .. }) => {
+      let n = ident_name(ident);
+      json!({"kk":"bare","n":n,"cp":n.chars().map(|c| c as u32).collect::<Vec<_>>()})
+    }
+    Some(MemberKey::Value { value, .. }) => json!({"kk":"val","v":token_value_j(value)}),
+    Some(MemberKey::Type1 { t1, is_cut, .. }) => json!({"kk":"type","t":type1_j(t1),"cut":is_cut}),
+    Some(MemberKey::NonMemberKey { non_member_key, .. }) => match non_member_key {
+      NonMemberKey::Group(g) => json!({"kk":"nonmember-group","g":group_j(g)}),
+      NonMemberKey::Type(t) => json!({"kk":"nonmember-type","t":type_j(t)}),
+    },
+  }
+}
+
+pub fn entry_j(e: &GroupEntry) -> J {
+  match e {
+    GroupEntry::ValueMemberKey { ge, .. } => {
+      let (lo, hi, sp) = occ_bounds(&ge.occur);
+      json!({"k":"ent","lo":lo,"hi":hi,"osp":sp,"key":key_j(&ge.member_key),"t":type_j(&ge.entry_type)})
+    }
+    GroupEntry::TypeGroupname { ge, .. } => {
+      let (lo, hi, sp) = occ_bounds(&ge.occur);
+      json!({"k":"name","lo":lo,"hi":hi,"osp":sp,"n":ident_name(&ge.name),"args":args_j(&ge.generic_args)})
+    }
+    GroupEntry::InlineGroup { occur, group, .. } => {
+      let (lo, hi, sp) = occ_bounds(occur);
+      json!({"k":"sub","lo":lo,"hi":hi,"osp":sp,"g":group_j(group)})
+    }
+  }
+}
+
+pub fn group_j(g: &Group) -> J {
+  json!({"galts": g.group_choices.iter().map(|gc| J::Array(gc.group_entries.iter().map(|(e, _)| entry_j(e)).collect())).collect::<Vec<_>>()})
+}
+
+fn params_j(p: &Option<GenericParams>) -> J {
+  match p {
+    None => json!([]),
+    Some(p) => J::Array(p.params.iter().map(|x| json!(ident_name(&x.param))).collect()),
+  }
+}
+
+pub fn proj_cddl(c: &CDDL) -> J {
+  J::Array(
+    c.rules
+      .iter()
+      .map(|r| match r {
+        Rule::Type { rule, .. } => json!({
+          "name": ident_name(&rule.name), "kind":"type",
+          "op": if rule.is_type_choice_alternate { "/=" } else { "=" },
+          "params": params_j(&rule.generic_params), "t": type_j(&rule.value)}),
+        Rule::Group { rule, .. } => json!({
+          "name": ident_name(&rule.name), "kind":"group",
+          "op": if rule.is_group_choice_alternate { "//=" } else { "=" },
+          "params": params_j(&rule.generic_params), "e": entry_j(&rule.entry)}),
+      })
+      .collect(),
+  )
+}
+
+// ---------------------------------------------------------------- span tree (C15)
+fn sp(s: &Span) -> J {
+  json!([s.0, s.1, s.2])
+}
+fn node(kind: &str, s: &Span, ch: Vec<J>) -> J {
+  json!({"k":kind,"s":sp(s),"ch":ch})
+}
+fn ident_node(i: &Identifier) -> J {
+  json!({"k":"ident","s":sp(&i.span),"ch":[],"txt":ident_name(i)})
+}
+fn gargs_node(g: &Option<GenericArgs>) -> Vec<J> {
+  match g {
+    None => vec![],
+    Some(g) => vec![node("genericargs", &g.span, g.args.iter().map(|a| type1_node(&a.arg)).collect())],
+  }
+}
+fn type2_node(t: &Type2) -> J {
+  match t {
+    Type2::IntValue { span, .. } => node("lit", span, vec![]),
+    Type2::UintValue { span, .. } => node("lit", span, vec![]),
+    Type2::FloatValue { span, .. } => node("lit", span, vec![]),
+    Type2::TextValue { span, .. } => node("lit", span, vec![]),
+    Type2::UTF8ByteString { span, .. } => node("lit", span, vec![]),
+    Type2::B16ByteString { span, .. } => node("lit", span, vec![]),
+    Type2::B64ByteString { span, .. } => node("lit", span, vec![]),
+    Type2::Typename { ident, generic_args, span } => {
+      let mut ch = vec![ident_node(ident)];
+      ch.extend(gargs_node(generic_args));
+      node("typename", span, ch)
+    }
+    Type2::ParenthesizedType { pt, span, .. } => node("paren", span, vec![type_node(pt)]),
+    Type2::Map { group, span, .. } => node("map", span, vec![group_node(group)]),
+    Type2::Array { group, span, .. } => node("array", span, vec![group_node(group)]),
+    Type2::Unwrap { ident, generic_args, span, .. } => {
+      let mut ch = vec![ident_node(ident)];
+      ch.extend(gargs_node(generic_args));
+      node("unwrap", span, ch)
+    }
+    Type2::ChoiceFromInlineGroup { group, span, .. } => node("enumg", span, vec![group_node(group)]),
+    Type2::ChoiceFromGroup { ident, generic_args, span, .. } => {
+      let mut ch = vec![ident_node(ident)];
+      ch.extend(gargs_node(generic_args));
+      node("enumr", span, ch)
+    }
+    Type2::TaggedData { t, span, .. } => node("tag", span, vec![type_node(t)]),
+    Type2::DataMajorType { span, .. } => node("major", span, vec![]),
+    Type2::Any { span } => node("any", span, vec![]),
+  }
+}
+fn type1_node(t: &Type1) -> J {
+  let mut ch = vec![type2_node(&t.type2)];
+  if let Some(op) = &t.operator {
+    match &op.operator {
+      RangeCtlOp::RangeOp { span, .. } => ch.push(node("rangeop", span, vec![])),
+      RangeCtlOp::CtlOp { span, .. } => ch.push(node("ctlop", span, vec![])),
+    }
+    ch.push(type2_node(&op.type2));
+  }
+  node("type1", &t.span, ch)
+}
+fn type_node(t: &Type) -> J {
+  node("type", &t.span, t.type_choices.iter().map(|tc| type1_node(&tc.type1)).collect())
+}
+fn occ_node(o: &Option<Occurrence>) -> Vec<J> {
+  match o {
+    None => vec![],
+    Some(o) => {
+      let s = match &o.occur {
+        Occur::Optional { span } => span,
+        Occur::ZeroOrMore { span } => span,
+        Occur::OneOrMore { span } => span,
+        Occur::Exact { span, .. } => span,
+      };
+      vec![node("occur", s, vec![])]
+    }
+  }
+}
+fn key_node(k: &Option<MemberKey>) -> Vec<J> {
+  match k {
+    None => vec![],
+    Some(MemberKey::Bareword { ident, span, .. }) => vec![node("memberkey", span, vec![ident_node(ident)])],
+    Some(MemberKey::Value { span, .. }) => vec![node("memberkey", span, vec![])],
+    Some(MemberKey::Type1 { t1, span, .. }) => vec![node("memberkey", span, vec![type1_node(t1)])],
+    Some(MemberKey::NonMemberKey { .. }) => vec![],
+  }
+}
+fn entry_node(e: &GroupEntry) -> J {
+  match e {
+    GroupEntry::ValueMemberKey { ge, span, .. } => {
+      let mut ch = occ_node(&ge.occur);
+      ch.extend(key_node(&ge.member_key));
+      ch.push(type_node(&ge.entry_type));
+      node("entry", span, ch)
+    }
+    GroupEntry::TypeGroupname { ge, span, .. } => {
+      let mut ch = occ_node(&ge.occur);
+      ch.push(ident_node(&ge.name));
+      ch.extend(gargs_node(&ge.generic_args));
+      node("nameentry", span, ch)
+    }
+    GroupEntry::InlineGroup { occur, group, span, .. } => {
+      let mut ch = occ_node(occur);
+      ch.push(group_node(group));
+      node("inlinegroup", span, ch)
+    }
+  }
+}
+fn group_node(g: &Group) -> J {
+  node(
+    "group",
+    &g.span,
+    g.group_choices
+      .iter()
+      .map(|gc| node("groupchoice", &gc.span, gc.group_entries.iter().map(|(e, _)| entry_node(e)).collect()))
+      .collect(),
+  )
+}
+fn gparams_node(p: &Option<GenericParams>) -> Vec<J> {
+  match p {
+    None => vec![],
+    Some(p) => vec![node("genericparams", &p.span, p.params.iter().map(|x| ident_node(&x.param)).collect())],
+  }
+}
+
+pub fn span_tree(c: &CDDL, text: &str) -> J {
+  let rules: Vec<J> = c
+    .rules
+    .iter()
+    .map(|r| match r {
+      Rule::Type { rule, span, .. } => {
+        let mut ch = vec![ident_node(&rule.name)];
+        ch.extend(gparams_node(&rule.generic_params));
+        ch.push(type_node(&rule.value));
+        node("rule", span, ch)
+      }
+      Rule::Group { rule, span, .. } => {
+        let mut ch = vec![ident_node(&rule.name)];
+        ch.extend(gparams_node(&rule.generic_params));
+        ch.push(entry_node(&rule.entry));
+        node("rule", span, ch)
+      }
+    })
+    .collect();
+  json!({"k":"cddl","s":[0, text.len(), 1],"ch":rules})
+}
+
+pub fn comments(c: &CDDL) -> J {
+  // every comment string attached anywhere in the AST, via the derived Debug output
+  // (Comments is a tuple struct of &str); the driver extracts them.
+  json!(format!("{:?}", c))
+}
